@@ -40,7 +40,10 @@ def cases(tier, seed):
 def _quantiles(rng):
     pool = [0.01, 0.05, 0.1, 0.25, 0.5, 0.75, 0.9, 0.95, 0.99, 0.333]
     k = int(rng.integers(1, 5))
-    return [float(pool[i]) for i in rng.permutation(len(pool))[:k]]
+    qs = [float(pool[i]) for i in rng.permutation(len(pool))[:k]]
+    if rng.random() < 0.2:   # a requested quantile may be repeated: still one entry per REQUESTED quantile
+        qs.insert(int(rng.integers(0, len(qs) + 1)), qs[int(rng.integers(0, len(qs)))])
+    return qs
 
 
 def _kind(x):
@@ -72,6 +75,22 @@ def _compare_structure(ctx, what, ci_list, point, quantiles, wit):
             ok &= ctx.check(_idx_set(e) <= _idx_set(point), "ci_entry_index_not_in_estimate_index:" + what, entry=sorted(_idx_set(e))[:12],
                             estimate=sorted(_idx_set(point))[:12], wit=wit)
             ok &= ctx.check(list(e.index.names) == list(point.index.names), "ci_entry_index_names_differ:" + what, wit=wit)
+            pi, ei = [repr(k) for k in point.index], [repr(k) for k in e.index]
+            if set(ei) <= set(pi) and len(set(ei)) == len(ei) and len(set(pi)) == len(pi):
+                # same index = same labels in the same order (the estimate's order, restricted to the groups that were drawn)
+                ctx.ev("ci_index_orders_compared")
+                ok &= ctx.check(ei == [k for k in pi if k in set(ei)], "ci_entry_index_order_differs_from_estimate:" + what, entry=ei[:12],
+                                estimate=pi[:12], quantile=q, wit=wit)
+    # entries of a repeated quantile are the same value
+    for i in range(len(quantiles)):
+        for j in range(i + 1, len(quantiles)):
+            if quantiles[i] == quantiles[j]:
+                a, b = ci_list[i], ci_list[j]
+                ctx.ev("repeated_quantile_entries_compared")
+                same = a.equals(b) if isinstance(a, (pd.Series, pd.DataFrame)) and type(a) is type(b) else (
+                    (pd.isna(a) and pd.isna(b)) or a == b) if np.ndim(a) == 0 and np.ndim(b) == 0 else False
+                ok &= ctx.check(bool(same), "entries_of_a_repeated_quantile_differ:" + what, quantile=quantiles[i], first=repr(a)[:200], second=repr(b)[:200],
+                                wit=wit)
     return ok
 
 
